@@ -451,6 +451,22 @@ func buildRegistry() {
 		var k pac.UPNDNSInfo
 		note(k.Unmarshal(b))
 	}})
+	// a UPN_DNS_INFO buffer larger than 64 KiB (16-bit offsets and lengths whose sum exceeds 16 bits)
+	bigUPN := func() []byte {
+		b := make([]byte, 140000)
+		b[0], b[1] = 0x40, 0x9c // UPN length 40000
+		b[2], b[3] = 16, 0      // UPN offset
+		b[4], b[5] = 0x20, 0x4e // DNS domain length 20000
+		b[6], b[7] = 0x50, 0x9c // DNS domain offset 40016
+		for i := 16; i < len(b); i += 2 {
+			b[i] = 'a'
+		}
+		return b
+	}()
+	register(&entry{name: "pac.UPNDNSInfo.Unmarshal(buffer over 64 KiB)", kind: "bin", small: 1, header: 16, budget: 4 << 20, seeds: [][]byte{bigUPN}, run: func(b []byte) {
+		var k pac.UPNDNSInfo
+		note(k.Unmarshal(b))
+	}})
 	register(&entry{name: "pac.SignatureData.Unmarshal", kind: "bin", small: 3, seeds: td(testdata.MarshaledPAC_Server_Signature, testdata.MarshaledPAC_KDC_Signature), run: func(b []byte) {
 		var k pac.SignatureData
 		_, serr := k.Unmarshal(b)
